@@ -523,6 +523,9 @@ pub static QUIET: std::sync::atomic::AtomicBool = std::sync::atomic::AtomicBool:
 /// successive packets, so the prior contents of a buffer are typically an earlier (possibly longer) packet
 pub static LAST_BUF: std::sync::Mutex<Vec<u8>> = std::sync::Mutex::new(Vec::new());
 pub fn last_buf() -> Vec<u8> { LAST_BUF.lock().map(|b| b.clone()).unwrap_or_default() }
+/// the UUID most recently installed on the context under test (so that generators can send UUIDs related to it)
+pub static LAST_UUID: std::sync::Mutex<Vec<u8>> = std::sync::Mutex::new(Vec::new());
+pub fn last_uuid() -> Vec<u8> { LAST_UUID.lock().map(|b| b.clone()).unwrap_or_default() }
 pub static HINT: std::sync::atomic::AtomicU32 = std::sync::atomic::AtomicU32::new(0);
 pub fn hint() -> (u8, u8, u8) {
     let h = HINT.load(std::sync::atomic::Ordering::Relaxed);
@@ -621,6 +624,7 @@ impl<'c, 'm> Session<'c, 'm> {
                 }
             }
         }
+        if let (Op::SetUuid(u), Obs::Unit) = (&op, &obs) { if let Ok(mut l) = LAST_UUID.lock() { *l = u.clone(); } }
         self.log(&op, &obs);
         match &obs {
             Obs::ProcOk(_, _, _, _, b) | Obs::ProcErr(_, _, b) | Obs::Enc(_, b) => { if let Ok(mut l) = LAST_BUF.lock() { *l = b.clone(); } }
